@@ -32,6 +32,24 @@ def embed(A, n):
     return sp.csr_matrix((A.data, (A.row, A.col)), shape=(n, n))
 
 
+def requested(it, name):
+    """The value the caller asked for: the constructor argument recorded by the constructor hook (``multiplier=``, ``density=``; the
+    documented default None if the caller left it out; the workload keeps the record up to date where it changes an item later),
+    not the attribute the analysis reads itself (fourth audit: an item that drops its multiplier was mirrored).  Items built
+    before the hooks were attached (ride-along) carry no record: their attributes are all there is."""
+    rec = getattr(it, "_vmon_requested", None)
+    if rec is not None and name in rec:
+        return rec[name]
+    return getattr(it.assemble, "multiplier", None) if name == "multiplier" else getattr(it, name, None)
+
+
+def set_density(it, rho):
+    """The workload changes the density of an existing item (attribute assignment) and keeps the record of what it asked for."""
+    it.density = rho
+    if getattr(it, "_vmon_requested", None) is not None:
+        it._vmon_requested["density"] = rho
+
+
 def reassemble(items, x, copies=False):
     n = int(np.sum(x.fieldsizes))
     import scipy.sparse as sp
@@ -42,8 +60,9 @@ def reassemble(items, x, copies=False):
         it.field.link(xc)
         Ki = it.assemble.matrix()
         Mi = it.assemble.mass()
-        if it.assemble.multiplier is not None:
-            Ki = Ki * it.assemble.multiplier
+        mult = requested(it, "multiplier")
+        if mult is not None:
+            Ki = Ki * mult
         K = K + embed(Ki, n)
         M = M + embed(Mi, n)
     return (K, M, its) if copies else (K, M)
@@ -57,13 +76,14 @@ def own_mass(items, x):
     M = sp.csr_matrix((n, n))
     for it in items:
         f0 = it.field[0]
-        if type(f0).__name__ not in ("Field", "FieldPlaneStrain") or getattr(it, "density", None) is None:
+        rho = requested(it, "density")
+        if type(f0).__name__ not in ("Field", "FieldPlaneStrain") or rho is None:
             return None
         reg = f0.region
         cells = reg.mesh.cells
         nq, nc = reg.dV.shape
         h = np.broadcast_to(reg.h, (reg.h.shape[0], nq, nc))
-        m = float(it.density) * np.einsum("aqc,bqc,qc->cab", h, h, reg.dV)
+        m = float(rho) * np.einsum("aqc,bqc,qc->cab", h, h, reg.dV)
         d = f0.dim
         rows = np.repeat(cells[:, :, None], cells.shape[1], axis=2)
         cols = np.repeat(cells[:, None, :], cells.shape[1], axis=1)
@@ -81,31 +101,90 @@ SIMPLEX_LUMPED = {"RegionQuadraticTriangle": ([0.0] * 3 + [1 / 3] * 3, [(0, 1), 
                   "RegionQuadraticTetra": ([-1 / 20] * 4 + [1 / 5] * 6, [(0, 1), (1, 2), (2, 0), (0, 3), (1, 3), (2, 3)])}
 
 
+# number of quadrature points of the documented default rule of the other templates (constructor signatures: the one-point rule
+# ``order=1`` of the linear simplices; ``order=2`` of the MINI and the quadratic simplices: three points on the triangle, four in
+# the tetrahedron, as the quadrature classes document)
+SIMPLEX_POINTS = {"RegionTriangle": 1, "RegionTetra": 1, "RegionTriangleMINI": 3, "RegionTetraMINI": 4, "RegionQuadraticTriangle": 3,
+                  "RegionQuadraticTetra": 4}
+# reference nodes of the bi- / tri-linear templates (documented numbering: counter-clockwise bottom face, then the top face)
+Q1_NODES = {2: np.array([[-1, -1], [1, -1], [1, 1], [-1, 1]], float),
+            3: np.array([[-1, -1, -1], [1, -1, -1], [1, 1, -1], [-1, 1, -1], [-1, -1, 1], [1, -1, 1], [1, 1, 1], [-1, 1, 1]], float)}
+
+
+class RuleMismatch(Exception):
+    """A region built with the defaults of its template carries another number of quadrature points than the documented rule."""
+
+
+def own_shape(name, nodes):
+    """Own shape functions of a nodal template: the basis of the template's polynomial space (tensor-product monomials
+    r^i s^j t^k up to the order of the element; serendipity: at most one exponent equal to two) that is one at its own node and
+    zero at the others (inverse of the Vandermonde matrix at the reference nodes).  Returns ``f(xi) -> (h, dhdxi)``.  For the
+    bi- / tri-linear templates this is prod_i (1 + xi_i xi_ai) / 2^d written in closed form."""
+    nodes = np.asarray(nodes, float)
+    d = nodes.shape[1]
+    if len(nodes) == 2 ** d:
+        def linear(xi):
+            f = 1.0 + nodes * np.asarray(xi, float)[None]
+            h = np.prod(f, axis=1) / 2 ** d
+            dh = np.stack([nodes[:, j] * np.prod(np.delete(f, j, axis=1), axis=1) for j in range(d)], axis=1) / 2 ** d
+            return h, dh
+        return linear
+    if name in ("RegionQuadraticQuad", "RegionQuadraticHexahedron"):
+        ex = [e for e in itertools.product(range(3), repeat=d) if sum(1 for k in e if k == 2) <= 1]
+    else:
+        ex = list(itertools.product(range(int(round(len(nodes) ** (1.0 / d)))), repeat=d))
+    ex = np.array(ex)
+    if len(ex) != len(nodes):
+        raise ValueError("no polynomial space for %s with %d nodes" % (name, len(nodes)))
+    C = np.linalg.inv(np.prod(nodes[:, None, :] ** ex[None], axis=2))  # C[m, a]: coefficient of monomial m in h_a
+
+    def general(xi):
+        xi = np.asarray(xi, float)
+        h = C.T @ np.prod(xi[None] ** ex, axis=1)
+        dh = np.zeros((len(nodes), d))
+        for j in range(d):
+            e = ex.copy()
+            e[:, j] = np.maximum(e[:, j] - 1, 0)
+            dh[:, j] = C.T @ (ex[:, j] * np.prod(xi[None] ** e, axis=1))
+        return h, dh
+    return general
+
+
 def cell_mass(reg):
     """Unit-density cell mass data that do not use the region's quadrature (``h``, ``dV``): ``(m, l, bubble)`` with
     ``m[c, a, b]`` the cell matrices by the template's documented default rule (own Gauss-Legendre tensor rule with own
     Jacobians; the one-point centroid rule of the linear simplices in closed form, V / (d + 1)^2) or None where the simplex
     rule of the template is not unique, ``l[c, a] = int h_a dV`` (exact for every rule that integrates the shape functions
     themselves: closed forms of the straight-sided simplices) and the local index of a bubble unknown (MINI).  None if the
-    region is no known template, carries another rule than its default, or has curved simplex cells."""
+    region is no known template, carries another rule than its default, or has curved simplex cells.  The shape functions
+    are own ones as well (``own_shape``: the element's ``function`` / ``gradient`` are what the assembled matrix is made of; only
+    the reference nodes of the higher-order templates are taken from the element, those of the linear ones from the documented
+    numbering).  A region that was built with the default rule of its template (recorded by the constructor hook) and carries
+    another number of points than the documented rule raises RuleMismatch: that is the defect, not a reason to skip."""
     name = type(reg).__name__
     cells = np.asarray(reg.mesh.cells)
     X = np.asarray(reg.mesh.points, float)[cells]
     d = X.shape[2]
     nq = reg.dV.shape[0]
+    default = bool(getattr(reg, "_vmon_default_rule", False))
     if name in GAUSS_POINTS or name == "RegionLagrange":
         npt = GAUSS_POINTS.get(name) or int(round(cells.shape[1] ** (1.0 / d)))  # RegionLagrange(order): order + 1 nodes and points per axis
         if nq != npt ** d:
+            if default:
+                raise RuleMismatch("%s built with its default rule carries %d quadrature points, the documented rule has %d" % (name, nq, npt ** d))
             return None
         x1, w1 = np.polynomial.legendre.leggauss(npt)
+        shape = own_shape(name, Q1_NODES[d] if cells.shape[1] == 2 ** d else reg.element.points)
         m = np.zeros((len(cells), cells.shape[1], cells.shape[1]))
         for idx in itertools.product(range(npt), repeat=d):
             xi = x1[list(idx)]
-            h = np.asarray(reg.element.function(xi), float)
-            J = np.einsum("cai,aj->cij", X, np.asarray(reg.element.gradient(xi), float))
+            h, dh = shape(xi)
+            J = np.einsum("cai,aj->cij", X, dh)
             m += float(np.prod(w1[list(idx)])) * np.linalg.det(J)[:, None, None] * np.outer(h, h)[None]
         return m, m.sum(2), None
     nv = d + 1
+    if default and name in SIMPLEX_POINTS and nq != SIMPLEX_POINTS[name]:
+        raise RuleMismatch("%s built with its default rule carries %d quadrature points, the documented rule has %d" % (name, nq, SIMPLEX_POINTS[name]))
     if name in ("RegionTriangle", "RegionTetra", "RegionTriangleMINI", "RegionTetraMINI") or name in SIMPLEX_LUMPED:
         V = np.linalg.det(X[:, 1:nv] - X[:, :1]) / math.factorial(d)
         if name in ("RegionTriangle", "RegionTetra"):
@@ -143,7 +222,7 @@ def rule_mass(items, x, density=None):
     rows = np.zeros(n, bool)
     for k, it in enumerate(items):
         f0 = it.field[0]
-        rho = getattr(it, "density", None) if density is None else density[k]
+        rho = requested(it, "density") if density is None else density[k]
         if type(f0).__name__ not in ("Field", "FieldPlaneStrain") or rho is None:
             return None
         data = cell_mass(f0.region)
@@ -167,11 +246,18 @@ def rule_mass(items, x, density=None):
 
 def judge_mass(run, M, items, x, density=None, what="the assembled mass matrix"):
     """The clauses on a mass matrix against the references that are independent of the regions' quadrature."""
-    ref = rule_mass(items, x, density)
+    try:
+        ref = rule_mass(items, x, density)
+    except RuleMismatch as exc:
+        run.fail("modal", "clause=mass-default-rule-points", what + ": " + str(exc) + " (the mass matrix is the one of the template's documented "
+                 "default rule)", unit="modal:default-rule-points")
+        return
     if ref is None:
         run.skip("modal", "no independent mass reference for this field / region / rule")
         return
     Mref, l, t, rows = ref
+    if all(getattr(it.field[0].region, "_vmon_default_rule", False) for it in items):
+        run.ok("modal", unit="modal:default-rule-points")
     if Mref is not None:
         run.compare("modal", "clause=mass-matrix-documented-rule", maxabs((M - Mref).toarray()) / max(abs(Mref).max(), 1e-300), 1e-12,
                     what + " is not rho * integral of h_a h_b over the body by the template's documented rule (own quadrature points, weights, "
@@ -198,9 +284,49 @@ def inverse_spectrum(K, M, k):
     return 1.0 / mu
 
 
+def own_prescribed(points, dim, entries, size):
+    """The prescribed unknowns of a displacement field (the first field of its container) from the mesh coordinates and the
+    arguments the case hands to ``Boundary``: ``entries`` is a list of ``(planes, mode, skip)`` with ``planes = {axis: value}``
+    (``fx=``, ``fy=``, ``fz=``), ``mode`` "or" / "and" and ``skip`` the components that stay free.  Points lie on a plane if their
+    coordinate agrees to 1e-8 of the body's size (the faces of the box meshes are exact, interior points are a fraction of a cell
+    away)."""
+    points = np.asarray(points, float)
+    out = np.zeros((len(points), dim), bool)
+    for planes, mode, skip in entries:
+        on = np.array([np.abs(points[:, a] - v) <= 1e-8 * size for a, v in planes.items()])
+        sel = on.all(0) if mode == "and" else on.any(0)
+        comp = np.ones(dim, bool) if skip is None else ~np.asarray(skip, bool)[:dim]
+        out |= sel[:, None] & comp[None, :]
+    return np.flatnonzero(out.ravel())
+
+
+def expect(job, dof0):
+    """Hands the prescribed unknowns the case asked for (``own_prescribed``) to the post-condition of the job's next evaluate()."""
+    job._vmon_requested_dof0 = None if dof0 is None else np.asarray(dof0)
+    return job
+
+
+REGION_TEMPLATES = tuple(GAUSS_POINTS) + tuple(SIMPLEX_POINTS) + ("RegionLagrange",)
+
+
 def attach_hooks(run):
     import felupe as fem
     FV = fem.FreeVibration
+
+    # what the caller asked for, recorded when the objects are built (fourth audit: the reference read the stiffness multiplier
+    # and the density back from the item, and skipped the documented-rule reference when a default rule had another point count)
+    def post_body(obj, a):
+        obj._vmon_requested = {"density": a.documented("density", None)}
+        if type(obj).__name__ == "SolidBody":
+            obj._vmon_requested["multiplier"] = a.documented("multiplier", None)
+
+    def post_region(obj, a):
+        obj._vmon_default_rule = "quadrature" not in a.given or (type(obj).__name__ == "RegionLagrange" and a.get("quadrature") is None)
+
+    for cls in (fem.SolidBody, fem.SolidBodyNearlyIncompressible):
+        attach.wrap_init(cls, post_body)
+    for name in REGION_TEMPLATES:
+        attach.wrap_init(getattr(fem, name), post_region)
 
     def pre_evaluate(self, args, kwargs):
         # reference matrices from the state *before* the call (evaluate scales the items' matrices in place); the boundary
@@ -208,6 +334,8 @@ def attach_hooks(run):
         # rewrites entries of ``self.boundaries`` must not define its own reference
         x = kwargs.get("x0", args[0] if args else None) or self.items[0].field
         ctx = {"K": None, "dof0": None, "bounds": None}
+        if any(getattr(it, "_vmon_requested", {}).get("multiplier") is not None for it in self.items):
+            run.units["modal:multiplier-from-constructor-argument"] += 1
         try:
             ctx["bounds"] = {k: (b, np.array(b.mask, copy=True)) for k, b in self.boundaries.items()}
             ctx["dof0"] = Model(x).dof0(self.boundaries)
@@ -240,6 +368,17 @@ def attach_hooks(run):
                 run.fail("modal", "clause=boundaries-unchanged", "FreeVibration.evaluate changed the boundary dictionary of the job (entries dropped, "
                          "replaced or re-selected): the prescribed unknowns are those of the dictionary the caller passed")
         dof0 = ctx["dof0"] if ctx["dof0"] is not None else model.dof0(self.boundaries)
+        want = getattr(self, "_vmon_requested_dof0", None)
+        if want is not None:
+            # the prescribed unknowns are those of the planes, modes and skipped components the case passed to Boundary (own
+            # selection from the mesh coordinates), not those of the masks the Boundary objects made of them
+            if np.array_equal(np.sort(want), np.sort(np.asarray(dof0))):
+                run.ok("modal", unit="modal:prescribed-from-arguments")
+            else:
+                run.fail("modal", "clause=prescribed-unknowns-as-requested", "the boundary dictionary does not prescribe the unknowns of the planes / "
+                         "modes / skipped components it was built with (%d unknowns selected, %d requested)" % (len(dof0), len(want)),
+                         unit="modal:prescribed-from-arguments")
+            dof0 = np.sort(want)
         dof1 = np.setdiff1d(np.arange(model.n), dof0)
         if not np.array_equal(np.asarray(self.dof1), dof1):
             run.fail("modal", "clause=free-unknowns", "FreeVibration.dof1 differs from the complement of the prescribed unknowns")
@@ -435,6 +574,36 @@ def build(rng, fam, density=None, units=False, n=None):
     return fem.SolidBody(umat, field, density=rho, multiplier=mult), field, mesh, L, (E * (mult or 1.0), nu, rho)
 
 
+LEFT = [({0: 0.0}, "or", None)]  # Boundary(field[0], fx=0.0)
+
+
+def prescribed(field, mesh, L, entries):
+    """``own_prescribed`` for the displacement field of a case (the first field of the container) on its box of lengths L."""
+    return own_prescribed(mesh.points, field[0].dim, entries, float(np.max(L)))
+
+
+def judge_total_mass(run, job, field, rho, L):
+    """t^T M t = d * rho * V for the unit translations t of all d directions, with the density the case asked for and the
+    volume of the box the case built (the meshes are distorted in the interior only, their cells straight-sided): a reference
+    that uses neither the element's shape functions nor its quadrature.  ``M`` is the matrix the evaluate() hook re-assembled
+    from the items; bubble unknowns (MINI) are amplitudes, not nodal values: a translation has none."""
+    info = getattr(job, "_vmon", None)
+    if info is None:
+        run.skip("modal", "no re-assembled mass matrix for the total-mass clause")
+        return
+    f0 = field[0]
+    cells = np.asarray(f0.region.mesh.cells)
+    if type(f0.region).__name__ in ("RegionTriangleMINI", "RegionTetraMINI"):
+        cells = cells[:, :-1]
+    d = f0.dim
+    t = np.zeros(info["M"].shape[0])
+    t[(d * np.unique(cells)[:, None] + np.arange(d)[None, :]).ravel()] = 1.0
+    want = d * float(rho) * float(np.prod(L))
+    run.compare("modal", "clause=total-mass", abs(float(t @ (info["M"] @ t)) - want) / want, 1e-11,
+                "the mass of the body (sum of the assembled mass matrix over the nodal unknowns, per direction) is not density * volume "
+                "of the box the body fills", unit="modal:total-mass")
+
+
 def case_constrained(fam, rep):
     def fn(run):
         import felupe as fem
@@ -445,18 +614,24 @@ def case_constrained(fam, rep):
             if (rep // 3) % 2 or rep % 2 == 1:
                 run.units["modal:other-unit-system"] += 1
             bkind = rep % 3
+            dm = mesh.dim
             if bkind == 0:
                 b = {"left": fem.Boundary(field[0], fx=0.0)}
+                want = LEFT
             elif bkind == 1:
                 b = {"left": fem.Boundary(field[0], fx=0.0, skip=(0, 1, 1)[: mesh.dim]), "bottom": fem.Boundary(field[0], fy=0.0, skip=(1, 0, 1)[: mesh.dim]),
                      "pin": fem.Boundary(field[0], fx=0.0, fy=0.0, mode="and")}
+                want = [({0: 0.0}, "or", (0, 1, 1)[:dm]), ({1: 0.0}, "or", (1, 0, 1)[:dm]), ({0: 0.0, 1: 0.0}, "and", None)]
             else:
                 b = fem.dof.symmetry(field[0])
                 b["right"] = fem.Boundary(field[0], fx=float(L[0]))
+                # (symmetry planes through the origin: the displacement normal to each plane is prescribed)
+                want = [({a: 0.0}, "or", tuple(i != a for i in range(dm))) for a in range(dm)] + [({0: float(L[0])}, "or", None)]
             k = int(rng.integers(1, 13))
             nfree = len(fem.dof.partition(field, b)[1])
             k = max(1, min(k, nfree - 2))  # ARPACK needs k < N
-            job = fem.FreeVibration([solid], b).evaluate(k=k)
+            job = expect(fem.FreeVibration([solid], b), prescribed(field, mesh, L, want)).evaluate(k=k)
+            judge_total_mass(run, job, field, par[2], L)
             for n in range(k):
                 job.extract(n, inplace=False)
             run.configs.add(str(("constrained", fam, bkind, k)))
@@ -464,6 +639,7 @@ def case_constrained(fam, rep):
             # the same job object evaluated again with another boundary dictionary (and number of modes): nothing of the first
             # evaluation may survive (free unknowns, pairs, shapes)
             job.boundaries = dict(b, **{"far": fem.Boundary(field[0], fx=float(L[0]))}) if bkind != 2 else {"left": fem.Boundary(field[0], fx=0.0)}
+            expect(job, prescribed(field, mesh, L, want + [({0: float(L[0])}, "or", None)] if bkind != 2 else LEFT))
             nfree2 = len(fem.dof.partition(field, job.boundaries)[1])
             k2 = max(1, min(k + 1, nfree2 - 2))
             job.evaluate(k=k2)
@@ -500,16 +676,19 @@ def case_items(fam, rep):
         try:
             solid, field, mesh, L, par = build(rng, fam)
             umat2 = type(solid.umat)(E=float(rng.uniform(1, 50)), nu=float(rng.uniform(0.1, 0.4)))
-            s2 = fem.SolidBody(umat2, field, density=float(rng.uniform(0.5, 5)), multiplier=float(rng.uniform(0.3, 3)) if rep % 2 else None)
+            rhos = [par[2], float(rng.uniform(0.5, 5))]
+            s2 = fem.SolidBody(umat2, field, density=rhos[1], multiplier=float(rng.uniform(0.3, 3)) if rep % 2 else None)
             b = {"left": fem.Boundary(field[0], fx=0.0)}
             nfree = len(fem.dof.partition(field, b)[1])
             k = max(1, min(int(rng.integers(2, 9)), nfree - 2))
             items = [solid, s2]
             if rep % 3 == 0:
-                items.append(fem.SolidBodyNearlyIncompressible(fem.NeoHooke(mu=float(rng.uniform(0.5, 2))), field, bulk=float(rng.uniform(20, 200)),
-                                                              density=float(rng.uniform(0.5, 5))))
+                mu3, bulk3 = float(rng.uniform(0.5, 2)), float(rng.uniform(20, 200))
+                rhos.append(float(rng.uniform(0.5, 5)))
+                items.append(fem.SolidBodyNearlyIncompressible(fem.NeoHooke(mu=mu3), field, bulk=bulk3, density=rhos[2]))
                 run.units["modal:item:SolidBodyNearlyIncompressible"] += 1
-            job = fem.FreeVibration(items, b).evaluate(k=k, parallel=bool(rep % 2))
+            job = expect(fem.FreeVibration(items, b), prescribed(field, mesh, L, LEFT)).evaluate(k=k, parallel=bool(rep % 2))
+            judge_total_mass(run, job, field, sum(rhos), L)
             for n in range(k):
                 job.extract(n, inplace=False)
             run.units["modal:items>=2"] += 1
@@ -524,6 +703,14 @@ def case_items(fam, rep):
             for body in [solid, bare] + items[2:]:
                 judge_mass(run, body.assemble.mass(density=r), [body], field, density=[r], what="assemble.mass(density=r) of %s" % type(body).__name__)
                 run.units["modal:mass-density-argument"] += 1
+            # the stiffness multiplier with the caller's number: the same body with and without ``multiplier=m`` on the same
+            # supports: K scales with m, M does not, every eigenvalue scales with m (the hook's reference uses the recorded
+            # constructor argument; this clause needs no re-assembly at all)
+            m = (0.37, 1.7, 2.6, 0.61)[rep % 4] * float(rng.uniform(0.9, 1.1))
+            lam = [np.sort(fem.FreeVibration([fem.SolidBody(solid.umat, field, density=par[2], **kw)], b).evaluate(k=k).eigenvalues) for kw in ({}, {"multiplier": m})]
+            run.compare("modal.multiplier", "clause=eigenvalues-scale-with-the-multiplier", maxabs(lam[1] - m * lam[0]) / maxabs(m * lam[0]), 1e-9,
+                        "a body built with multiplier=m does not have m times the eigenvalues of the same body without multiplier",
+                        unit="modal:multiplier-scaling-law", config=("multiplier", fam, rep % 4))
         finally:
             attach.detach_all()
     return fn
@@ -551,7 +738,7 @@ def case_sizes(rep):
             k = int(rng.integers(3, 8))
             spectra = []
             for items in ([plain, mixed], [mixed, plain]):
-                job = fem.FreeVibration(items, b).evaluate(k=k, x0=field)
+                job = expect(fem.FreeVibration(items, b), prescribed(field, mesh, L, LEFT)).evaluate(k=k, x0=field)
                 job.extract(2, x0=field, inplace=False)
                 job.extract(x0=field, n=-1, inplace=False)
                 spectra.append(np.sort(job.eigenvalues))
@@ -562,6 +749,14 @@ def case_sizes(rep):
         finally:
             attach.detach_all()
     return fn
+
+
+def point_supports_requested(L):
+    """The arguments of ``point_supports`` in the form of ``own_prescribed``."""
+    if len(L) == 2:
+        return [({0: 0.0, 1: 0.0}, "and", None), ({0: float(L[0]), 1: 0.0}, "and", (1, 0))]
+    return [({0: 0.0, 1: 0.0, 2: 0.0}, "and", None), ({0: float(L[0]), 1: 0.0, 2: 0.0}, "and", (1, 0, 0)),
+            ({0: 0.0, 1: float(L[1]), 2: 0.0}, "and", (1, 1, 0))]
 
 
 def point_supports(field, L):
@@ -592,7 +787,8 @@ def case_determinate(fam, rep):
             b = point_supports(field, L)
             nfree = len(fem.dof.partition(field, b)[1])
             k = int(rng.integers(10, 26)) if fam in ("quad", "hexahedron") else int(rng.integers(1, 7))
-            job = fem.FreeVibration([solid], b).evaluate(k=k)
+            job = expect(fem.FreeVibration([solid], b), prescribed(field, mesh, L, point_supports_requested(L))).evaluate(k=k)
+            judge_total_mass(run, job, field, par[2], L)
             job.extract(0, inplace=False)
             job.extract(n=k - 1, inplace=False)
             run.units["modal:point-supports"] += 1
@@ -632,8 +828,11 @@ def case_submesh(rep):
             b = {"left": fem.Boundary(field[0], fx=0.0)}
             nfree = len(fem.dof.partition(field, b)[1])
             k = max(1, min(int(rng.integers(2, 7)), nfree - 2))
-            one = fem.FreeVibration([solid], b).evaluate(k=k)
-            two = fem.FreeVibration(parts[::-1] if rep % 2 else parts, b).evaluate(k=k, x0=field)
+            one = expect(fem.FreeVibration([solid], b), prescribed(field, mesh, L, LEFT)).evaluate(k=k)
+            two = expect(fem.FreeVibration(parts[::-1] if rep % 2 else parts, b), prescribed(field, mesh, L, LEFT)).evaluate(k=k, x0=field)
+            # (the two bodies together fill the box: the sum of their mass matrices carries its mass)
+            judge_total_mass(run, one, field, rho, L)
+            judge_total_mass(run, two, field, rho, L)
             run.compare("modal.submesh", "clause=sub-mesh-bodies-equal-one-body", maxabs(np.sort(two.eigenvalues) - np.sort(one.eigenvalues)) / maxabs(one.eigenvalues), 1e-8,
                         "two bodies on complementary sub-meshes (evaluated with the global field) do not have the spectrum of the one-body model",
                         unit="modal:sub-mesh-items", config=("submesh", fam))
@@ -653,7 +852,8 @@ def case_rigid(fam, rep, n=None):
             nrig = 3 if d == 2 else 6
             k = min(nrig + 4, int(sum(field.fieldsizes)) - 2)  # (one-cell bodies have few unknowns)
             scale = E / (rho * float(np.max(L)) ** 2)
-            job = fem.FreeVibration([solid]).evaluate(k=k, solver=shifted_solver(-1e-3 * scale))
+            job = expect(fem.FreeVibration([solid]), np.zeros(0, int)).evaluate(k=k, solver=shifted_solver(-1e-3 * scale))
+            judge_total_mass(run, job, field, rho, L)
             lam = np.sort(job.eigenvalues)
             nz = int(np.sum(np.abs(lam) < 1e-7 * lam[nrig]))
             # the same unconstrained body on a mesh that carries points without cells (as the sub-meshes of a merged container do):
@@ -731,9 +931,10 @@ def case_prestretched(fam, rep):
             run.units["modal:prestretched"] += 1
             run.units["modal:prestretched:%s" % ("SolidBody", "SolidBodyNearlyIncompressible", "SolidBodyNearlyIncompressible+SolidBody")[body]] += 1
             run.configs.add(str(("prestretched", fam, k)))
-            # twice the density on every item: twice the mass matrix on the same stiffness, half the eigenvalues
-            for it in items:
-                it.density = 2 * it.density
+            # twice the density on every item: twice the mass matrix on the same stiffness, half the eigenvalues (the numbers
+            # are the case's own: rho for the first item, 2 rho for the second, not the attributes read back)
+            for it, r0 in zip(items, (rho, 2 * rho)):
+                set_density(it, 2 * r0)
             job.evaluate(k=k)
             run.compare("modal.history", "clause=density-doubled-between-evaluations", maxabs(2 * np.sort(job.eigenvalues) - lam1) / maxabs(lam1), 1e-9,
                         "the same job evaluated again after the density of its items was doubled does not return half the eigenvalues",
@@ -843,7 +1044,11 @@ SPEC = {
                        "modal:boundaries-unchanged", "modal:mass-independent-rule", "modal:mass-row-sums", "modal:spectrum:singular-mass", "modal:mass-density-argument",
                        "modal:items-on-smaller-container", "modal:point-supports", "modal:lanczos-vectors>20", "modal:default-number-of-modes", "modal:eigensolver-keywords",
                        "modal:items-changed-between-evaluations", "modal:prestretched:SolidBody", "modal:prestretched:SolidBodyNearlyIncompressible",
-                       "modal:prestretched:SolidBodyNearlyIncompressible+SolidBody", "modal:mixed-container:re-evaluated"]
+                       "modal:prestretched:SolidBodyNearlyIncompressible+SolidBody", "modal:mixed-container:re-evaluated",
+                       # fourth audit (mirrored oracles): multiplier / density from the constructor arguments, prescribed unknowns from the
+                       # arguments of Boundary, total mass from the caller's box, default rules with their documented point counts
+                       "modal:multiplier-from-constructor-argument", "modal:multiplier-scaling-law", "modal:prescribed-from-arguments", "modal:total-mass",
+                       "modal:default-rule-points"]
                       + ["modal:mixed-container:%s" % m for m in MIXED] + ["modal:family:%s" % f for f in MORE_FAMILIES],
     "rule": ("linear-elastic bodies on 12 element families plus RegionLagrange (3D, plane strain, plane stress) with random box dimensions, "
              "elastic constants, densities, three kinds of boundary dictionaries and statically determinate point supports, 1..25 requested modes; "
@@ -851,7 +1056,8 @@ SPEC = {
              "boundaries on the extra fields), items on containers of different size, one job evaluated at several states of its items; every "
              "evaluate()/extract() is judged by the post-hooks with K and M re-assembled from item copies taken before the call; a "
              "configuration is distinct by (family, boundary kind, number of modes)"),
-    "assumptions": ["completeness of the spectrum: rigid-mode count, and a dense generalized solve (definite mass block) or the dense inverse problem (singular mass block, regular stiffness block) for systems up to 600 free unknowns with the default solver", "the shifted solver for singular K is API the class offers (solver=)",
+    "assumptions": ["the reference K uses the multiplier= and density= the constructors were called with (constructor hooks; items built before the hooks were attached fall back to their attributes), the prescribed unknowns of the box cases come from an own selection by coordinates",
+                    "completeness of the spectrum: rigid-mode count, and a dense generalized solve (definite mass block) or the dense inverse problem (singular mass block, regular stiffness block) for systems up to 600 free unknowns with the default solver", "the shifted solver for singular K is API the class offers (solver=)",
                     "the mass matrix is judged against the templates' documented default rules (unique for Gauss-Legendre and the one-point simplex rules) and, for the other simplex templates, through its row sums; unconstrained bodies are not driven with the default shift sigma = 0 (ill-posed, DESIGN section 6 observation (a))"],
     "jobs": {"quick": 8, "thorough": 16},
 }
